@@ -116,12 +116,8 @@ def run(chk, repo, tier):
                     required += (' - (0 when S_elements is falsy, else '
                                  'self.get_Selements())')
                     selem = ps[2] if len(ps) > 2 else None
-                    falsy = any(k == ('truthy', ('name', selem)) and not pol
-                                or k == ('not', ('truthy', ('name', selem)))
-                                and pol for k, pol in p.conds())
-                    truthy = any(k == ('truthy', ('name', selem)) and pol
-                                 or k == ('not', ('truthy', ('name', selem)))
-                                 and not pol for k, pol in p.conds())
+                    falsy = p.says(('truthy', ('name', selem)), False)
+                    truthy = p.says(('truthy', ('name', selem)), True)
                     if not rest:
                         ok = falsy
                     else:
@@ -296,8 +292,8 @@ def run(chk, repo, tier):
                         'stored object)', found=p.describe())
             continue
         n_constructs += 1
-        guard = [c for c, pol in p.conds()
-                 if c[0] == 'truthy' and is_missing_list(c[1]) and not pol]
+        guard = [c for c, v in p.facts().items()
+                 if c[0] == 'truthy' and is_missing_list(c[1]) and not v]
         chk.ob('R01.3', bool(guard), LIB, estf, key='guard-dominates',
                what='estimator construction only on the path where the '
                     'missing-groups list is empty',
@@ -319,8 +315,8 @@ def run(chk, repo, tier):
     ok = bool(raises)
     found = 'no raise GroupMissingDataError'
     for p in raises:
-        conds = [c for c, pol in p.conds()
-                 if c[0] == 'truthy' and is_missing_list(c[1]) and pol]
+        conds = [c for c, v in p.facts().items()
+                 if c[0] == 'truthy' and is_missing_list(c[1]) and v]
         args = p.outcome[2]
         good = (bool(conds) and len(args) == 2 and is_missing_list(args[0])
                 and args[1] == ('name', pp))
